@@ -437,6 +437,16 @@ class Seams:
             if real_os is not None and not isinstance(real_os, SimOS):
                 self.saved_os.append((m, real_os))
                 m.os = SimOS(self.fs, real_os)
+        # pathlib.Path(...).open / read_text / write_text go through Path.open
+        import pathlib
+
+        fs = self.fs
+        self._path_open = pathlib.Path.open
+
+        def _sim_path_open(self_path, mode="r", buffering=-1, encoding=None, errors=None, newline=None):
+            return fs.open(str(self_path), mode, buffering, encoding, errors, newline)
+
+        pathlib.Path.open = _sim_path_open
         return self
 
     def restore(self):
@@ -452,3 +462,8 @@ class Seams:
         for m, real_os in self.saved_os:
             m.os = real_os
         self.saved_os = []
+        if getattr(self, "_path_open", None) is not None:
+            import pathlib
+
+            pathlib.Path.open = self._path_open
+            self._path_open = None
